@@ -44,19 +44,20 @@ def mkFragPkt (d : DG) (o l : Nat) (mf : Bool) (ttl : Nat) : Pkt :=
 def fragPkt (d : DG) (p : Nat × Nat) (ttl : Nat) : Pkt :=
   mkFragPkt d p.1 p.2 (decide (p.1 + p.2 < d.payload.length)) ttl
 
-/-- what the property's quantifier ranges over: payload 1..65515 bytes cut at multiples of 8 into at least two
-    non-empty pieces; the header is the one of an unfragmented datagram -/
+/-- what the property's quantifier ranges over: payload 1..65515 bytes (header + payload ≤ 65535, RFC 791) cut at
+    multiples of 8 into at least two non-empty pieces; the header is the one of an unfragmented datagram -/
 structure DG.wf (d : DG) : Prop where
   pos : ∀ l ∈ d.lens, 0 < l
   sum : d.lens.sum = d.payload.length
   two : 2 ≤ d.lens.length
-  size : d.payload.length ≤ 65515
+  size : hdrSize d.hdr + d.payload.length ≤ 65535
   aligned : ∀ p ∈ d.pieces, p.1 % 8 = 0
   off0 : d.hdr.off = 0
   mf0 : d.hdr.flags % 2 = 0
 
 instance (d : DG) : Decidable d.wf :=
-  if h : (∀ l ∈ d.lens, 0 < l) ∧ d.lens.sum = d.payload.length ∧ 2 ≤ d.lens.length ∧ d.payload.length ≤ 65515 ∧
+  if h : (∀ l ∈ d.lens, 0 < l) ∧ d.lens.sum = d.payload.length ∧ 2 ≤ d.lens.length ∧
+         hdrSize d.hdr + d.payload.length ≤ 65535 ∧
          (∀ p ∈ d.pieces, p.1 % 8 = 0) ∧ d.hdr.off = 0 ∧ d.hdr.flags % 2 = 0
   then isTrue ⟨h.1, h.2.1, h.2.2.1, h.2.2.2.1, h.2.2.2.2.1, h.2.2.2.2.2.1, h.2.2.2.2.2.2⟩
   else isFalse (fun w => h ⟨w.pos, w.sum, w.two, w.size, w.aligned, w.off0, w.mf0⟩)
